@@ -50,6 +50,10 @@ from common import cZ, cN, cnat, cQ, clist, copt
 
 IMPORTS = ("From Coq Require Import String.\n"
            "From TP Require Import Model.TrajFilter Model.TrajLayout.")
+# tables with a column 'z': the z-aware layout model (guess_pos_columns answers z, y, x for link, link_partial,
+# compute_drift / subtract_drift, cluster; msd, imsd, emsd, proximity, relate_frames keep ['x', 'y'])
+IMPORTS3 = ("From Coq Require Import String.\n"
+            "From TP Require Import Model.TrajFilter Model.TrajLayout Model.TrajLayout3.")
 
 TRANSLATOR = os.path.join(common.VERIF, 'tools', 'py2coq_filtering.py')
 GEN = os.path.join(common.COQ, 'Gen', 'filtering.v')
@@ -83,7 +87,7 @@ def ensure_model(chk):
     def fresh(v):
         vo = os.path.join(common.COQ, v + 'o')
         return os.path.exists(vo) and os.path.getmtime(vo) >= os.path.getmtime(os.path.join(common.COQ, v))
-    files = ('Model/TrajFilter.v', 'Model/TrajLayout.v')
+    files = ('Model/TrajFilter.v', 'Model/TrajLayout.v', 'Model/TrajLayout3.v')
     if all(fresh(v) for v in files):
         return True
     with common.Lock(os.path.join(common.COQ, '.build.lock')):
@@ -741,6 +745,13 @@ def explore(chk, tname, t0, pipes, terms, cases):
         cases.append(dict(rep, observed=dict(index_names=names, columns=list(t.columns), consumer_codes=cons)))
 
 
+def with_z(t):
+    """the same table with a column 'z' in front (3-D features): one plane per walker band plus a slow drift in z"""
+    t = t.copy()
+    t.insert(0, 'z', 4.0 + 0.25 * t['frame'].to_numpy() + 2.0 * ((t['x'].to_numpy() // 20) % 3))
+    return t
+
+
 def run_compose(chk):
     rng = chk.rng
     depth = 2 if chk.tier == 'quick' else 3
@@ -779,7 +790,22 @@ def run_compose(chk):
         chk.tally('start table without ' + '+'.join(drop))
         explore(chk, 'without:' + '+'.join(drop), tt, [()] + [(p,) for p in PRODUCERS], terms, cases)
     res = common.coq_eval_lists(chk.work, IMPORTS, 'check_layout', terms, tag='layout', shard=150)
-    for r, c in zip(res, cases):
+    # 3-D tables: the same walkers with a column 'z' (smooth in the frame number, so linking stays unambiguous); every
+    # producer at depth <= 1 plus sampled depth 2 (thorough: all of depth 2), all consumers; one table that lost 'y'
+    terms3, cases3 = [], []
+    t3 = with_z(tabs[0][1])
+    pipes3 = [()] + [(p,) for p in PRODUCERS]
+    if chk.tier == 'quick':
+        pipes3 += [tuple(rng.choice(PRODUCERS) for _ in range(2)) for _ in range(6)]
+    else:
+        pipes3 += list(itertools.product(PRODUCERS, repeat=2)) + [tuple(rng.choice(PRODUCERS) for _ in range(3)) for _ in range(10)]
+    chk.tally('3-D start table (column z)')
+    explore(chk, '3d', t3, list(dict.fromkeys(pipes3)), terms3, cases3)
+    explore(chk, '3d:frame_particle', t3.set_index(['frame', 'particle'], drop=False), [()] + [(p,) for p in PRODUCERS], terms3, cases3)
+    chk.tally('3-D start table without y')
+    explore(chk, '3d:without:y', t3.drop(columns=['y']), [()] + [(p,) for p in PRODUCERS], terms3, cases3)
+    res3 = common.coq_eval_lists(chk.work, IMPORTS3, 'check_layout3', terms3, tag='layout3', shard=150)
+    for r, c in list(zip(res, cases)) + list(zip(res3, cases3)):
         if r != 0:
             what = LAYOUT_CODES.get(r) or ('consumer %s: pandas outcome differs from the model' % CONSUMERS[r - 10] if 10 <= r < 22 else 'code %d' % r)
             pipe = c['pipeline']
@@ -970,7 +996,9 @@ def run(chk):
         "above and below actual observation counts), filter_clusters(threshold at exact trajectory means and elsewhere) and filter_clusters(quantile); "
         "non-trivial = at least two trajectories and some but not all rows kept.  (b) every pipeline of the 5 producers up to the exhaustive depth "
         "(coverage.exhaustive_depth) plus sampled deeper ones, from each base table, then all 12 consumers; the same from 17 odd start layouts and "
-        "4 column-deficient tables at depth <= 1; non-trivial = the consumer received a table whose index is not the plain unnamed one.  (c) walkers on the integer pixel grid "
+        "4 column-deficient tables at depth <= 1; the same walkers with a column 'z' (3-D: guess_pos_columns answers z, y, x), default- and (frame, particle)-indexed "
+        "and without 'y', at depth <= 1 plus sampled depth 2 (thorough: all of depth 2), against the z-aware layout model Model/TrajLayout3.v; "
+        "non-trivial = the consumer received a table whose index is not the plain unnamed one.  (c) walkers on the integer pixel grid "
         "(random integer steps, so the per-frame mean displacement is generally non-integral; one table per run moves rigidly, drift integral in every frame) "
         "stored with integer-typed measurement columns -- x,y int64 always, plus int32 / mixed 32 and 64 bit / one coordinate integer and one float / integer size and mass "
         "(2 of 6 sampled in the quick tier, all in thorough) -- under index layouts default / shuffled / frame_index / duplicate / string labels; "
@@ -986,6 +1014,12 @@ def run(chk):
         "Model/PyFiltering.v); pandas_sort's *args/**kwargs are the flag inplace (the translator checks every call site in trackpy/); "
         "an Index object shared between two tables (renaming one renames the other) is not modelled; link / link_partial / "
         "compute_drift / subtract_drift / cluster around the generated helpers are the hand-written stage skeletons (C13 / C18 own their text)",
+        "tables with a column 'z': C20_gen_compose_3d / C20_gen_same_numbers_3d need no hypothesis on z; compute_drift / subtract_drift also stand in the "
+        "composition as Gen/drift.v's functions read on layouts (Model/PyDriftSchema.v SchemaDI: exceptions propagated by the interpretation because Gen/drift.v "
+        "has no exception monad; C20_gen_compose_all_generated) and link's column / dtype effect is Gen/coords.v's py_link (C20_gen_link_layout, any Linker); "
+        "Gen/drift.v, Gen/coords.v and Gen/msd.v are regenerated by the C18 / C01 / C17 checks, not by this one: C20's cone is built against the files on disk; "
+        "Gen/msd.v has no layout content (its tables are (particle, frame, positions) lists), so imsd / emsd stay Model/TrajLayout.v's stages in the layout theorems "
+        "and appear as generated code only in the concrete run ex3_pipeline (glue between the four table vocabularies: Model/TrajPipeline3.v, re-reading only)",
         "pandas semantics are modelled, not verified: groupby-filter algorithm (sorted unique non-NaN keys, positions, np.sort, take), "
         "Series.count/mean skipping NaN, linear-interpolation quantile, and the label-ambiguity rule of sort_values/groupby; each is exercised by the correspondence",
         "filter_clusters: float mean vs exact mean decided with margin >= 1e-9 (sizes are multiples of 1/4; exact ties at dyadic means are exercised; smaller non-zero margins are skipped and counted)",
@@ -1045,7 +1079,10 @@ def replay(chk, path):
         t0 = table_from_json(r['table'])
         terms, cases = [], []
         explore(chk, r.get('table_name', 'replay'), t0, [tuple(r['pipeline'])], terms, cases)
-        res = common.coq_eval_lists(chk.work, IMPORTS, 'check_layout', terms, tag='layout')
+        if 'z' in t0.columns:
+            res = common.coq_eval_lists(chk.work, IMPORTS3, 'check_layout3', terms, tag='layout3')
+        else:
+            res = common.coq_eval_lists(chk.work, IMPORTS, 'check_layout', terms, tag='layout')
         print('replay: pipeline %s observed %s ; model comparison codes %s' % (r['pipeline'], [c['observed'] for c in cases], res))
         for code, c in zip(res, cases):
             if code != 0:
